@@ -746,6 +746,53 @@ func c09Record(c *h.Ctx) error {
 			dec("mutated", append(hdr, tail...))
 		}
 	}
+	// fixed prelude: names at the top of the legal length range (wire length 250..255) written as "labels + pointer into an
+	// earlier name" -- the partially compressed shape, with the suffix starting at the first or at an inner label of the question name
+	for _, total := range []int{250, 253, 254, 255} {
+		for _, sufLabels := range []int{1, 2, 3} {
+			for _, inner := range []int{0, 1} {
+				// the question name: sufLabels+inner labels; the answer name: fresh labels + the last sufLabels labels of it
+				q := []h.Bytes{}
+				for j := 0; j < sufLabels+inner; j++ {
+					q = append(q, bytes.Repeat([]byte{byte('a' + j)}, []int{5, 30, 63}[(j+sufLabels)%3]))
+				}
+				suf := q[inner:]
+				left := total - c09WireLen(suf) // octets for the fresh labels (each 1 + len)
+				if left < 2 {
+					continue
+				}
+				pre := []h.Bytes{}
+				for left > 0 {
+					l := left - 1
+					if l > 63 {
+						l = 63
+						if left-64 == 1 { // never leave a single octet: a label needs its length octet and one more
+							l = 62
+						}
+					}
+					pre = append(pre, bytes.Repeat([]byte{byte('p' + len(pre))}, l))
+					left -= 1 + l
+				}
+				buf := []byte{0x12, 0x34, 0x80, 0, 0, 1, 0, 1, 0, 0, 0, 0}
+				at := len(buf)
+				for j, l := range q {
+					if j < inner {
+						at += 1 + len(l)
+					}
+					buf = append(buf, byte(len(l)))
+					buf = append(buf, l...)
+				}
+				buf = append(buf, 0, 0, 1, 0, 1)
+				for _, l := range pre {
+					buf = append(buf, byte(len(l)))
+					buf = append(buf, l...)
+				}
+				buf = append(buf, 0xC0|byte(at>>8), byte(at), 0, 1, 0, 1, 0, 0, 0, 30, 0, 4, 10, 0, 0, 1)
+				c.Case(fmt.Sprintf("longname:%d:%d:%d", total, sufLabels, inner))
+				dec("packed", buf)
+			}
+		}
+	}
 	for i := 0; i < n; i++ {
 		var pool [][]h.Bytes
 		m := c09Msg{ID: rng.Intn(65536), Flags: rng.Intn(65536), QD: []c09Q{}, AN: []c09RR{}, NS: []c09RR{}, AR: []c09RR{}}
